@@ -186,6 +186,17 @@ func (in *Interp) addPC(t *Term) {
 	}
 	in.pc = append(in.pc, t)
 	in.solver.Assert(t)
+	// remember decided conditions: hash-consing makes re-evaluations of the same condition free
+	if t.op == OpNot {
+		in.known[t.a] = false
+	} else {
+		in.known[t] = true
+		if t.op == OpEq && t.b.op == OpConst && t.a.op != OpConst {
+			in.concKnown[t.a] = t.b.k
+		} else if t.op == OpEq && t.a.op == OpConst && t.b.op != OpConst {
+			in.concKnown[t.b] = t.a.k
+		}
+	}
 }
 
 func (in *Interp) eval(t *Term) uint64 {
@@ -230,6 +241,12 @@ func (in *Interp) branch(cond *Term) bool {
 	if cond.IsConst() {
 		return cond.k != 0
 	}
+	if v, ok := in.known[cond]; ok {
+		return v
+	}
+	if sc := in.substKnown(cond); sc.IsConst() {
+		return sc.k != 0
+	}
 	if v, ok := in.nextPrefix(DBr); ok {
 		side := v != 0
 		if side {
@@ -239,6 +256,7 @@ func (in *Interp) branch(cond *Term) bool {
 		}
 		return side
 	}
+	in.qprof("branch")
 	side := in.eval(cond) != 0
 	other := cond
 	if side {
@@ -265,10 +283,17 @@ func (in *Interp) concretize(t *Term, what string) uint64 {
 	if t.IsConst() {
 		return t.k
 	}
+	if v, ok := in.concKnown[t]; ok {
+		return v
+	}
+	if st := in.substKnown(t); st.IsConst() {
+		return st.k
+	}
 	if v, ok := in.nextPrefix(DConc); ok {
 		in.addPC(in.tc.Eq(t, in.tc.Const(v, t.w)))
 		return v
 	}
+	in.qprof("conc:" + what)
 	v0 := in.eval(t)
 	in.solver.Push()
 	in.solver.Assert(in.tc.Ne(t, in.tc.Const(v0, t.w)))
@@ -389,12 +414,19 @@ func (in *Interp) assume(cond *Term) {
 }
 
 // vc: bad must be unsatisfiable under PC; otherwise a finding. Execution continues under ¬bad.
-func (in *Interp) vc(bad *Term, kind, id, msg string) {
+func (in *Interp) vcLazy(bad *Term, kind string, idmsg func() (string, string)) {
 	if bad.IsConst() {
 		if bad.k != 0 {
+			id, msg := idmsg()
 			in.finding(kind, id, msg, in.model)
 			in.endPath("violation")
 		}
+		return
+	}
+	if v, ok := in.known[bad]; ok && !v {
+		return
+	}
+	if sb := in.substKnown(bad); sb.IsConst() && sb.k == 0 {
 		return
 	}
 	in.ex.mu.Lock()
@@ -406,6 +438,7 @@ func (in *Interp) vc(bad *Term, kind, id, msg string) {
 		return
 	}
 	if in.eval(bad) != 0 {
+		id, msg := idmsg()
 		in.finding(kind, id, msg, in.model)
 		verdict, m := in.solver.CheckWith(in.tc.Not(bad), true)
 		if verdict != Sat {
@@ -418,12 +451,14 @@ func (in *Interp) vc(bad *Term, kind, id, msg string) {
 		in.setModel(m)
 		return
 	}
+	in.qprof("vc:" + kind)
 	verdict, m := in.solver.CheckWith(bad, true)
 	switch verdict {
 	case Sat:
+		id, msg := idmsg()
 		in.finding(kind, id, msg, m)
 	case Unknown:
-		in.noteUnknown("vc " + kind + " " + id + " " + in.where())
+		in.noteUnknown("vc " + kind + " " + in.where())
 	}
 	in.addPC(in.tc.Not(bad))
 }
@@ -511,4 +546,67 @@ func decString(d []Decision) string {
 		}
 	}
 	return sb.String()
+}
+
+var qprofOn = false
+var qprofMu sync.Mutex
+var qprofTab = map[string]int{}
+
+func (in *Interp) qprof(kind string) {
+	if !qprofOn {
+		return
+	}
+	k := kind + " @ " + in.where()
+	qprofMu.Lock()
+	qprofTab[k]++
+	qprofMu.Unlock()
+}
+
+func qprofDump() {
+	type kv struct {
+		k string
+		v int
+	}
+	var l []kv
+	for k, v := range qprofTab {
+		l = append(l, kv{k, v})
+	}
+	sort.Slice(l, func(i, j int) bool { return l[i].v > l[j].v })
+	for i, e := range l {
+		if i > 25 {
+			break
+		}
+		fmt.Printf("  qprof %7d %s\n", e.v, e.k)
+	}
+}
+
+// substKnown replaces sub-terms whose value the path condition fixes (t == const) by that constant.
+func (in *Interp) substKnown(t *Term) *Term {
+	if len(in.concKnown) == 0 || in.tc.Raw {
+		return t
+	}
+	if in.substGen != len(in.concKnown) {
+		in.substGen = len(in.concKnown)
+		in.substMemo = map[*Term]*Term{}
+	}
+	return in.subst(t)
+}
+
+func (in *Interp) subst(t *Term) *Term {
+	if t == nil || t.op == OpConst {
+		return t
+	}
+	if r, ok := in.substMemo[t]; ok {
+		return r
+	}
+	var r *Term
+	if v, ok := in.concKnown[t]; ok {
+		r = in.tc.Const(v, t.w)
+	} else if t.op == OpVar {
+		r = t
+	} else {
+		r = in.tc.Rebuild(t, in.subst(t.a), in.subst(t.b), in.subst(t.c))
+	}
+	in.substMemo[t] = r
+	return r
 }
